@@ -1700,6 +1700,93 @@ static void run_hd(int chunk, long long& sub, long long sub_start) {
   }
 }
 
+// ------------------------------------------------------------------ equality family
+// operator== / operator!= take syntactic shortcuts (Grid::quick_equivalence_test) that depend on the *form* of both
+// operands.  For every value class this family collects objects denoting that value reached by different routes and
+// brought to different lazy states -- every phase-A state and every high-dimension system, as is and after each of the
+// observers minimized_congruences / is_empty / congruences / minimized_grid_generators / grid_generators+congruences --
+// keeps those with pairwise different dumps (all the ones whose congruences are minimized first), and asks == and !=
+// for all ordered pairs inside a class (expected: equal) and against the variants of the next classes (expected: different).
+struct EqVar { Grid* g; int cls; int dim; std::string how; int state; std::string observer; };
+static std::vector<EqVar> EQV;
+static std::vector<std::vector<int> > EQCLS;          // per class (dense index): variants
+static const int EQ_CHUNKS = 32;
+
+static void build_eq() {
+  if (ARGS.has("--no-eq")) return;
+  size_t cap_min = ARGS.thorough() ? 20 : 12, cap_other = ARGS.thorough() ? 8 : 5;
+  std::map<int, std::vector<int> > by_cls;
+  std::map<int, std::pair<size_t, size_t> > counts;
+  std::set<std::string> seen;
+  static const char* obs[] = {"", "minimized_congruences()", "is_empty()", "congruences()", "minimized_grid_generators()", "grid_generators()+congruences()"};
+  auto consider = [&](const Grid& base, int cls, int dim, const std::string& how, int state) {
+    for (int o = 0; o < 6; ++o) {
+      GP v(clone(base));
+      try {
+        switch (o) { case 1: (void)v->minimized_congruences(); break; case 2: (void)v->is_empty(); break; case 3: (void)v->congruences(); break;
+          case 4: (void)v->minimized_grid_generators(); break; case 5: (void)v->grid_generators(); (void)v->congruences(); break; default: break; }
+      } catch (...) { continue; }
+      bool cmin = v->status.test_c_minimized();
+      std::pair<size_t, size_t>& cnt = counts[cls];
+      if (cmin ? cnt.first >= cap_min : cnt.second >= cap_other) continue;
+      if (!seen.insert(std::to_string(cls) + "|" + dump_of(*v)).second) continue;
+      (cmin ? cnt.first : cnt.second)++;
+      EqVar e; e.g = v.release(); e.cls = cls; e.dim = dim; e.how = how + (o ? std::string(" + ") + obs[o] : std::string()); e.state = state; e.observer = obs[o];
+      by_cls[cls].push_back((int)EQV.size()); EQV.push_back(e);
+    }
+  };
+  // states with two or more congruence rows first: their minimal forms are the interesting ones
+  for (int pass = 0; pass < 2; ++pass) for (size_t s = 0; s < ST.size(); ++s) {
+    bool rich = ST[s].g->con_sys.num_rows() >= 2 && ST[s].g->status.test_c_up_to_date();
+    if (rich != (pass == 0)) continue;
+    consider(*ST[s].g, ST[s].cls, ST[s].dim, hist_json((int)s), (int)s);
+  }
+  for (size_t i = 0; i < HD.size(); ++i) {
+    if (HD[i].incremental) continue;
+    GP g; try { g.reset(hd_build(HD[i])); } catch (...) { continue; }
+    int cls = CL.classify(hd_expect(HD[i]));
+    consider(*g, cls, HD[i].dim, jstr(HD[i].name), -1);
+  }
+  for (auto& kv : by_cls) EQCLS.push_back(kv.second);
+}
+
+static void eq_ask(const EqVar& x, const EqVar& y, bool same) {
+  for (int neq = 0; neq < 2; ++neq) {
+    GP a(clone(*x.g)), b(clone(*y.g));
+    bool r;
+    try { r = neq ? (*a != *b) : (*a == *b); } catch (const std::exception& ex) { r = !same; }
+    count(CNT_TRANS); count(CNT_CHECKS);
+    bool want = neq ? !same : same;
+    J j;
+    if (x.state >= 0) { std::string h = hist_json(x.state); if (!x.observer.empty() && x.observer.find('+') == std::string::npos) h = h.substr(0, h.size() - 1) + (h.size() > 2 ? "," : "") + jstr(x.observer) + "]"; j.raw("history", h); }
+    if (y.state >= 0) { std::string h = hist_json(y.state); if (!y.observer.empty() && y.observer.find('+') == std::string::npos) h = h.substr(0, h.size() - 1) + (h.size() > 2 ? "," : "") + jstr(y.observer) + "]"; j.raw("operand_history", h); }
+    j.str("op", neq ? "operator!=" : "operator==").str("receiver", x.how).str("operand", y.how).str("receiver_value", cstr(x.cls)).str("operand_value", cstr(y.cls))
+     .str("signature", signature(*x.g)).str("operand_signature", signature(*y.g));
+    std::string site = neq ? "Grid::operator!=" : "Grid::operator==";
+    if (r != want && violcap().admit("eq|" + site + (same ? "|same" : "|diff")))
+      report_violation(site, same ? "query:equal-grids-reported-different" : "query:different-grids-reported-equal", "none", j.done(), r ? "true" : "false", want ? "true" : "false");
+    std::string m = stored_mismatch(*a, x.cls) + stored_mismatch(*b, y.cls);
+    if (!m.empty() && violcap().admit("eq|changed|" + site)) report_violation(site, "value:changed-by-query", "none", j.done(), m, "unchanged");
+  }
+}
+static void run_eq(int chunk, long long& sub, long long sub_start) {
+  size_t lo = EQCLS.size() * chunk / EQ_CHUNKS, hi = EQCLS.size() * (chunk + 1) / EQ_CHUNKS;
+  for (size_t c = lo; c < hi; ++c) {
+    long long my = sub++;
+    if (!pool().want(my, sub_start)) continue;
+    pool().step(my);
+    const std::vector<int>& V = EQCLS[c];
+    for (size_t i = 0; i < V.size(); ++i) for (size_t k = 0; k < V.size(); ++k) eq_ask(EQV[V[i]], EQV[V[k]], true);
+    // against the first variants of the next classes (same dimension: different sets; other dimension: never equal)
+    for (size_t d = 1; d <= 3 && c + d < EQCLS.size() + 3; ++d) {
+      const std::vector<int>& W = EQCLS[(c + d) % EQCLS.size()];
+      if (EQV[W[0]].cls == EQV[V[0]].cls) continue;
+      for (size_t i = 0; i < V.size(); ++i) for (size_t k = 0; k < W.size() && k < 3; ++k) eq_ask(EQV[V[i]], EQV[W[k]], false);
+    }
+    count(CNT_STATES);
+  }
+}
+
 // ------------------------------------------------------------------ replay of one recorded violation
 static std::vector<std::string> json_string_array(const std::string& txt, const std::string& key) {
   std::vector<std::string> out;
@@ -1811,11 +1898,14 @@ int main(int argc, char** argv) {
   double ta = now_s() - t0;
   bool phase_a_complete = ARGS.left() >= ARGS.deadline * 0.6;
   choose_reps(all_states, pool_classes, pool_sigs);
+  { double te = now_s(); build_eq(); size_t np = 0; for (size_t i = 0; i < EQCLS.size(); ++i) np += EQCLS[i].size() * EQCLS[i].size();
+    fprintf(stderr, "[grid] equality family: %zu variants in %zu classes, %zu same-class ordered pairs, built in %.1fs\n", EQV.size(), EQCLS.size(), np, now_s() - te); }
   fprintf(stderr, "[grid] phase A: depth=%d (full alphabet to %d) states=%zu transitions=%lld classes=%zu signatures=%zu reps=%zu groups=%zu pool=%zu ops=%zu queries=%zu ctors=%zu in %.1fs\n",
           depth, depth_full, ST.size(), TRANS_A, CL.vals.size(), SIGS.size(), REPS.size(), GROUPS.size(), POOL.size(), OPS.size(), QS.size(), CTORS.size(), ta);
   long long NG = (long long)GROUPS.size();
   Pool::Fn fn = [&](long long item, long long sub_start) {
     long long sub = 0;
+    if (item >= NG + CTOR_CHUNKS + HD_CHUNKS) { run_eq((int)(item - NG - CTOR_CHUNKS - HD_CHUNKS), sub, sub_start); return; }
     if (item >= NG + CTOR_CHUNKS) { double t = now_s(); run_hd((int)(item - NG - CTOR_CHUNKS), sub, sub_start); if (getenv("VERIF_PROFILE")) fprintf(stderr, "hd chunk %lld %.1fs\n", item - NG - CTOR_CHUNKS, now_s() - t); return; }
     if (item >= NG) { double t = now_s(); run_ctors((int)(item - NG), sub, sub_start); if (getenv("VERIF_PROFILE")) fprintf(stderr, "ctor chunk %lld %.1fs\n", item - NG, now_s() - t); return; }
     double tg = now_s();
@@ -1830,6 +1920,12 @@ int main(int argc, char** argv) {
   };
   Pool::CrashFn cf = [&](long long item, long long sub, int sig, bool confirmed) {
     if (!confirmed) return;
+    if (item >= NG + CTOR_CHUNKS + HD_CHUNKS) {
+      size_t ci = EQCLS.size() * (item - NG - CTOR_CHUNKS - HD_CHUNKS) / EQ_CHUNKS + sub;
+      std::string v = ci < EQCLS.size() ? cstr(EQV[EQCLS[ci][0]].cls) : "?";
+      report_violation("Grid::operator==", std::string("crash:") + signame(sig), "none", J().str("equality_family_class", v).done(), signame(sig), "normal return");
+      return;
+    }
     if (item >= NG + CTOR_CHUNKS) {
       size_t hi_ = HD.size() * (item - NG - CTOR_CHUNKS) / HD_CHUNKS + sub;
       std::string nm = hi_ < HD.size() ? HD[hi_].name : "?";
@@ -1859,19 +1955,19 @@ int main(int argc, char** argv) {
                      cj.str("receiver_value", cstr(ST[s].cls)).str("signature", ST[s].sig).str("detail", nm).done(), signame(sig), "normal return");
   };
   limit_memory(8ULL << 30);
-  pool().run(NG + CTOR_CHUNKS + HD_CHUNKS, ARGS.jobs, fn, cf, ARGS, 60);
+  pool().run(NG + CTOR_CHUNKS + HD_CHUNKS + EQ_CHUNKS, ARGS.jobs, fn, cf, ARGS, 60);
   bool complete = phase_a_complete && counter(CNT_SKIPPED) == 0 && counter(CNT_REFCRASH) == 0;
   std::vector<std::string> samples;
   for (size_t i = 0; i < REPS.size(); i += std::max<size_t>(1, REPS.size() / 3)) samples.push_back(hist_json(REPS[i]));
   std::vector<std::string> sigs; for (auto& s : SIGS) sigs.push_back(jstr(s));
   J extra; extra.num("phaseA_states", ST.size()).num("phaseA_transitions", TRANS_A).num("value_classes_phaseA", CL.vals.size())
-    .num("representatives", REPS.size()).num("operand_pool", POOL.size()).num("ops", OPS.size()).num("queries", QS.size()).num("constructor_cases", CTORS.size()).num("high_dimension_cases", HD.size())
+    .num("representatives", REPS.size()).num("operand_pool", POOL.size()).num("ops", OPS.size()).num("queries", QS.size()).num("constructor_cases", CTORS.size()).num("high_dimension_cases", HD.size()).num("equality_family_variants", EQV.size()).num("equality_family_classes", EQCLS.size())
     .num("oracle_comparisons", counter(CNT_CHECKS)).num("items_skipped_by_deadline", counter(CNT_SKIPPED)).num("cases_skipped_oracle_resource_limit", counter(CNT_REFCRASH))
     .boolean("phaseA_complete", phase_a_complete).arr("signatures_reached", sigs);
   J st; st.str("t", "stats").num("states", ST.size() + counter(CNT_STATES)).num("transitions", TRANS_A + counter(CNT_TRANS))
     .num("traces_validated_against_impl", TRANS_A + counter(CNT_TRANS)).boolean("exhaustive", complete)
     .str("bound", "grids of dimension 0.." + std::to_string(MAXDIM) + "; builder alphabet (" + std::to_string(CGM.size()) + " congruences, " + std::to_string(GGM.size()) + " generators, 8 observers) closed to depth "
-         + std::to_string(depth_full) + ", core alphabet to depth " + std::to_string(depth) + "; " + (all_states ? "all states" : "one representative per (value class, lazy-state signature)") + " x every query / transformer / operand of the pool; plus the exhaustive high-dimension family (dimension " + std::string(ARGS.thorough() ? "4..6" : "5") + ": a point + <= 4 menu generators, <= 4 menu congruences, built by constructor and incrementally, " + std::to_string(HD.size()) + " systems)")
+         + std::to_string(depth_full) + ", core alphabet to depth " + std::to_string(depth) + "; " + (all_states ? "all states" : "one representative per (value class, lazy-state signature)") + " x every query / transformer / operand of the pool; plus the exhaustive high-dimension family (dimension " + std::string(ARGS.thorough() ? "4..6" : "5") + ": a point + <= 4 menu generators, <= 4 menu congruences, built by constructor and incrementally, " + std::to_string(HD.size()) + " systems); plus the equality family (== and != on all ordered pairs of differently-built / differently-observed objects of one value class, " + std::to_string(EQV.size()) + " variants)")
     .arr("samples", samples).raw("extra", extra.done()).dbl("wall_s", now_s() - t0);
   sink().line(st.done());
   return 0;
